@@ -25,7 +25,10 @@ class Infeasible(Exception):
 
 
 class Walk(sym.StraightLine):
-    def __init__(self, body, call_bb, stops, region=None, max_paths=64):
+    CALLS = "\0calls"
+
+    def __init__(self, body, call_bb, stops, region=None, max_paths=64, start=None):
+        """walk from the return of the call at `call_bb` (its result is ('callres',)), or - with `start` - from that block itself"""
         self.b = body
         self.env = {}
         self.calls = []
@@ -35,22 +38,26 @@ class Walk(sym.StraightLine):
         self.paths = []         # (conds, env, end block, 'stop' | 'return')
         self.dropped = []       # reasons
         self.borrowed = set()   # place strings whose address was taken inside the region
+        self.stops, self.region, self.max_paths = set(stops), region, max_paths
+        if start is not None:
+            self._go(start, {}, [], frozenset(), first=True)
+            return
         t = body.term(call_bb)
         self.env[place_str(body, t["dest"])] = ("callres",)
         if t.get("target") is None:
             return
-        self.stops, self.region, self.max_paths = set(stops), region, max_paths
         self._go(t["target"], dict(self.env), [], frozenset([call_bb]))
 
-    def _go(self, bb, env, conds, seen):
+    def _go(self, bb, env, conds, seen, first=False):
         b = self.b
         while True:
             if len(self.paths) + len(self.dropped) > self.max_paths:
                 self.dropped.append("more than %d paths" % self.max_paths)
                 return
-            if bb in self.stops:
+            if bb in self.stops and not first:
                 self.paths.append((conds, env, bb, "stop"))
                 return
+            first = False
             if bb in seen:
                 self.dropped.append("inner loop at bb%d" % bb)
                 return
@@ -78,6 +85,7 @@ class Walk(sym.StraightLine):
                 name = c.get("rpath") or c.get("path") or "<indirect>"
                 args = tuple(self.op(a) for a in t["args"])
                 self.write(t["dest"], ("call", name, args, bb, c.get("path")))
+                env[self.CALLS] = env.get(self.CALLS, ()) + ((bb, name, args, c.get("path")),)
                 if t.get("target") is None:
                     return
                 bb = t["target"]
